@@ -12,7 +12,7 @@ import common as C
 AREA = "parse"
 VO_MODEL = ["gen/ParseTables.vo", "parse/Lex.vo", "parse/Prim.vo", "parse/Ymd.vo", "parse/Parse.vo",
             "parse/Build.vo", "parse/ParseSpec.vo", "parse/ParseSpec2.vo", "parse/FuzzyThm.vo",
-            "parse/ZoneThm.vo", "parse/Local.vo", "parse/ParseGenProps.vo"]
+            "parse/ZoneThm.vo", "parse/Local.vo", "parse/Full.vo", "parse/ParseGenProps.vo"]
 E_LEX, E_PARSE, E_RES, E_PARSE_LZ = 0, 1, 2, 3
 E_STRICT_CLASH = 22
 E_ZONE_LZ, E_TZLOCAL_RAISES = 12, 23
@@ -28,7 +28,7 @@ def matcher_oracle():
 
 
 def model_raw(o, s):
-    return matcher_oracle().call(*enc_call(o, s))
+    return matcher_oracle().call(*enc_full(o, s))
 
 
 def model_strict_clash(o, s):
@@ -38,8 +38,13 @@ def model_strict_clash(o, s):
 EXN_NAMES = {1: "IndexError", 2: "ValueError", 3: "OverflowError", 4: "AssertionError", 5: "TypeError",
              6: "UnboundLocalError", 7: "OutOfFuel", 8: "ValueError"}
 
-# TZ strings / tzinfo objects a tzinfos mapping or callable may return (wf_opts: valid ones only)
+# TZ strings / tzinfo objects a tzinfos mapping or callable may return
 TZSTRS = ["EST5EDT", "UTC+3", "CET-1CEST,M3.5.0,M10.5.0/3", "BRST3"]
+# TZ strings that tz.tzstr REJECTS (ValueError "unknown string format"); model ids 100.. (Full.v: `bad`)
+TZSTRS_BAD = ["EST5EDT,M3.2.0,M11.1.0/99x", "EST5EDT,4,1,0,7200,10,-1,0,7200,3600 x", "1", "-3"]
+BAD_TZSTR_IDS = [100 + i for i in range(len(TZSTRS_BAD))]
+# tzinfos values of an unsupported type (model: TVBad)
+BAD_VALUES = [1.5, b"EST5EDT", (1, 2), [3600]]
 
 
 class FoldTz(_dt.tzinfo):
@@ -86,8 +91,17 @@ def default_opts():
             "via": "module"}
 
 
+_YEAR = []
+
+
 def real_year():
-    return _time.localtime().tm_year
+    """the `current year` of this run: the year the implementation's module-level parser pinned when
+    dateutil.parser was imported (parserinfo._year), read ONCE; every parserinfo the harness creates is
+    given the same year, so no check depends on the wall clock moving past New Year during a run"""
+    if not _YEAR:
+        from dateutil import parser as P
+        _YEAR.append(P.DEFAULTPARSER.info._year)
+    return _YEAR[0]
 
 
 def enc_str(s):
@@ -185,10 +199,10 @@ def build_tzval(v, name_for_call=None):
     if k == "int":
         return v[1]
     if k == "str":
-        return TZSTRS[v[1]]
+        return TZSTRS[v[1]] if v[1] < 100 else TZSTRS_BAD[v[1] - 100]
     if k == "obj":
         return TZOBJS[v[1]]
-    return 1.5  # a value of an unsupported type (outside wf_opts)
+    return BAD_VALUES[v[1] if len(v) > 1 else 0]  # a value of an unsupported type (outside wf_opts)
 
 
 def build_tzinfos(t):
@@ -216,9 +230,9 @@ def get_parser(o):
     p = _INFO_CACHE.get(key)
     if p is None:
         info = P.parserinfo(dayfirst=o["info_dayfirst"], yearfirst=o["info_yearfirst"])
-        if o["cur_year"] is not None:
-            info._year = o["cur_year"]
-            info._century = o["cur_year"] // 100 * 100
+        cy = o["cur_year"] if o["cur_year"] is not None else real_year()
+        info._year = cy
+        info._century = cy // 100 * 100
         p = P.parser(info)
         _INFO_CACHE[key] = p
     return p
@@ -357,11 +371,43 @@ def tzlocal_range_hit(o, s, tzname, expected_dt=None):
         set_tz(prev if prev else "UTC")
 
 
+def local_tzname_bits(dt7, tzname):
+    """the two `tzname() == name` bits of the LOCAL zone at wall time dt7 (fold 0 / fold 1), computed
+    from the `time` module only (time.tzname, time.timezone, time.altzone, time.localtime) by the
+    documented rule of tz.tzlocal: standard/daylight by the platform's tm_isdst of the wall time read as
+    standard time; a wall time that is standard but whose (wall - dst_saved) is daylight is ambiguous and
+    then fold 0 is daylight, fold 1 standard.  Not computed with dateutil."""
+    import calendar
+    ds = local_dst_saved()
+    if ds == 0:
+        name0 = name1 = _time.tzname[0]
+    else:
+        ts = calendar.timegm(tuple(dt7[:6]) + (0, 0, 0))
+
+        def nd(t):
+            return bool(_time.localtime(t + _time.timezone).tm_isdst)
+        d0 = nd(ts)
+        amb = (not d0) and (d0 != nd(ts - ds))
+        if amb:
+            name0, name1 = _time.tzname[1], _time.tzname[0]
+        else:
+            name0 = name1 = _time.tzname[1 if d0 else 0]
+    return name0 == tzname, name1 == tzname
+
+
+def enc_full(o, s, lz=(0, 0), nm=(1, 0)):
+    """oracle entry 3: parse_full (Full.v) = parse with the failing local zone, tzinfos values of an unsupported
+    type and TZ strings that tz.tzstr rejects"""
+    return (E_PARSE_LZ, list(lz) + [len(BAD_TZSTR_IDS)] + BAD_TZSTR_IDS + enc_opts(o, nm) + [ord(c) for c in s])
+
+
 def run_model(oracle, cases):
-    """cases: list of (opts, string).  Two passes: zones whose tzname() is consulted by
-    _assign_tzname (local / user object / tzstr) get the two oracle bits computed from the real
-    zone object at the model's own naive result, then the model is re-run."""
-    first = oracle.call_many([enc_call(o, s) for (o, s) in cases])
+    """cases: list of (opts, string).  Two passes over the FULL model (parse_full): zones whose tzname() is
+    consulted by _assign_tzname get the two oracle bits at the model's own naive result, then the model is
+    re-run.  Local zone: bits and failure inputs come from the `time` module; user tzinfo objects and valid
+    TZ strings: from the object handed to parse() (their behaviour is an input of the property).  Nothing is
+    caught here: an object whose tzname() raises is a harness error and stops the check."""
+    first = oracle.call_many([enc_full(o, s) for (o, s) in cases])
     outs = [dec_outcome(r) for r in first]
     redo = []
     for k, out in enumerate(outs):
@@ -375,20 +421,15 @@ def run_model(oracle, cases):
             tzname = None
             if isinstance(nr, list) and nr and nr[0] == 1 and nr[1] == 1:
                 tzname = "".join(map(chr, nr[3:3 + nr[2]]))
-            zo = zone_object(out[4][0], out[4][1])
-            try:
+            if out[4][0] == 3:
+                nm0, nm1 = local_tzname_bits(out[1], tzname)
+                reqs.append(enc_full(cases[k][0], cases[k][1], local_zone_args(out[1]), (nm0, nm1)))
+            else:
+                zo = zone_object(out[4][0], out[4][1])
                 dtv = _dt.datetime(*out[1], tzinfo=zo)
                 nm0 = dtv.tzname() == tzname
                 nm1 = dtv.replace(fold=1).tzname() == tzname
-            except Exception:
-                nm0, nm1 = True, False
-            if out[4][0] == 3:
-                # the local zone can fail (Local.v): parse_lz with the zone's dst_saved and the platform's
-                # tm_isdst at the model's own naive result
-                code, args = enc_call(cases[k][0], cases[k][1], (nm0, nm1))
-                reqs.append((E_PARSE_LZ, local_zone_args(out[1]) + args))
-            else:
-                reqs.append(enc_call(cases[k][0], cases[k][1], (nm0, nm1)))
+                reqs.append(enc_full(cases[k][0], cases[k][1], (0, 0), (nm0, nm1)))
         second = oracle.call_many(reqs)
         for k, r in zip(redo, second):
             outs[k] = dec_outcome(r)
@@ -403,6 +444,15 @@ def same_outcome(a, b, fwt):
             return False
         return (not fwt) or a[5] == b[5]
     return a == b
+
+
+def table_codepoints():
+    """the non-ASCII code points of coq/gen/ParseTables.v: tbl_chars (the model's alphabet beyond ASCII)"""
+    import re
+    src = open(os.path.join(C.COQ, "gen", "ParseTables.v")).read()
+    body = src[src.index("Definition tbl_chars"):]
+    body = body[:body.index("].") + 2]
+    return [int(x) for x in re.findall(r"\((\d+), \(\(", body)]
 
 
 # ------------------------------------------------------------------------------------ generators
@@ -580,6 +630,16 @@ TZINFOS_CHOICES = [
 ]
 
 
+# option sets OUTSIDE DESIGN's wf_opts: values of an unsupported type, TZ strings tz.tzstr rejects
+TZINFOS_BAD_CHOICES = [
+    ("dict", [("BRST", ("bad", 0)), ("EST", ("str", 100)), ("UTC", ("bad", 1)), ("AAA", ("obj", 0))]),
+    ("dict", [("EST", ("str", 101)), ("GMT", ("str", 102)), ("BRST", ("int", -10800)), ("Z", ("bad", 2))]),
+    ("call", [("BRST", ("bad", 3)), ("EST", ("str", 103)), ("CCC", ("obj", 1))], ("none",)),
+    ("call", [("UTC", ("int", 0))], ("bad", 0)),
+    ("call", [("UTC", ("int", 0))], ("str", 100)),
+]
+
+
 def gen_opts(r, allow_bad=False):
     o = default_opts()
     if r.random() < 0.35:
@@ -593,6 +653,8 @@ def gen_opts(r, allow_bad=False):
         o["info_yearfirst"] = r.random() < 0.5
     o["ignoretz"] = r.random() < 0.15
     o["tzinfos"] = r.choice(TZINFOS_CHOICES)
+    if allow_bad and r.random() < 0.12:
+        o["tzinfos"] = r.choice(TZINFOS_BAD_CHOICES)
     if r.random() < 0.5:
         o["default"] = r.choice([(2003, 9, 25, 0, 0, 0, 0), (2000, 1, 31, 0, 0, 0, 0), (2001, 3, 30, 12, 34, 56, 789),
                                  (9999, 12, 31, 23, 59, 59, 999999), (1, 1, 1, 0, 0, 0, 0), (2004, 2, 29, 1, 2, 3, 4),
